@@ -72,5 +72,17 @@ PROPS = {
     },
 }
 
-WITNESS = {}
+STORE_EXPLORE = "store_explore.py"
+_STORE_BOUND = ("histories of <= 5 store operations (quick: 250 seeded samples per back end; thorough: all of length <= 3) over "
+                "2 names x 2 uids x {no, current, stale etag}, deletes, restarts, on tree-git, bare-git and vdir")
+for _pid, _sp in PROPS.items():
+    for _f in _sp["functions"]:
+        if _f.startswith("xandikos.store.") or _f.startswith("xandikos.web.ObjectResource") or _f.startswith("xandikos.web.StoreBasedCollection"):
+            _sp.setdefault("replay", {}).setdefault(_f, STORE_EXPLORE)
+            _sp.setdefault("standins", {}).setdefault(_f, {"driver": STORE_EXPLORE, "bound": _STORE_BOUND})
+
+WITNESS = {
+    # the exception was raised after the body had been read and the collection created
+    "raised_after_creation": lambda cex, rec: rec.get("effects", [])[:1] == ["read_body"] and "created" in rec.get("effects", []),
+}
 NOT_APPLICABLE = {}
